@@ -133,7 +133,60 @@ def _loads(nodes):
 DEBUG = []
 
 
+LOOSE = [False]
+
+
+def loose_outcome(p):
+    """Projection used by the loose comparison: what the region stores, which statements it executes for their effect, what
+    a loop hands on, how it ends."""
+    lens = summ.len_facts(p)
+    parts = []
+    for k, t, e in p.effects:
+        if k == "store":
+            parts.append("%s = %s" % (t, summ.arith_text(e, lens)))
+        elif k == "expr":
+            parts.append("do " + summ.arith_text(e, lens))
+        elif k == "carry":
+            parts.append("next %s = %s" % (t, summ.arith_text(e, lens)))
+        elif k in ("del", "with", "jump"):
+            parts.append("%s %s" % (k, t))
+        elif k == "final":
+            parts.append("final %s = %s" % (t, summ.arith_text(e, lens) if isinstance(e, ast.AST) else e))
+    k, e = p.result if p.result else ("none", None)
+    if k == "raise":
+        parts.append("raise %s" % (src(e.func) if isinstance(e, ast.Call) else (src(e) if e is not None else "")))
+    elif k == "return":
+        parts.append("return " + summ.arith_text(e, lens))
+    else:
+        parts.append(k)
+    return " ;; ".join(parts)
+
+
+def region_loosely_equivalent(ra, rb, fa=None, fb=None):
+    names = _assigned_names(ra) | _assigned_names(rb)
+    if fa is not None and fb is not None:
+        names &= (set(_loads(fa)) | set(_loads(fb)))
+    try:
+        pa = summ.Summariser(ra, "<current>", loops="body", final_names=sorted(names), max_paths=MAX_REGION_PATHS).run()
+        pb = summ.Summariser(rb, "<baseline>", loops="body", final_names=sorted(names), max_paths=MAX_REGION_PATHS).run()
+    except summ.Unsupported:
+        return None
+    except RecursionError:
+        return None
+    pa, pb = summ.boolify(pa), summ.boolify(pb)
+    ok, det = summ.compare(summ.table(pa, loose_outcome), summ.table(pb, loose_outcome))
+    if DEBUG is not None and len(DEBUG) < 50:
+        DEBUG.append((len(ra), len(rb), len(pa), len(pb), ok, "loose: " + det[:1500]))
+    return ok
+
+
 def region_equivalent(ra, rb, fa=None, fb=None):
+    if LOOSE[0]:
+        return region_loosely_equivalent(ra, rb, fa, fb)
+    return _region_equivalent(ra, rb, fa, fb)
+
+
+def _region_equivalent(ra, rb, fa=None, fb=None):
     """True / False / None (not computable) for two statement lists read as state transformers.
     fa / fb: the statements that can run after the region in each function (None: unknown, every assigned name counts);
     a name assigned in the region but never read afterwards is dead and its final value is not compared."""
@@ -321,6 +374,18 @@ def infer_pure(tree):
                     changed = True
         nf.EXTRA_PURE_FUNCS, nf.EXTRA_PURE_SELF_METHODS = saved
     return pure_f, pure_m
+
+
+def functions_loosely_equivalent(fa, fb):
+    """The same alignment as the prover, with regions compared as projected tables of the copy-propagating normal form
+    (sa/summ.py): enough to see that two spellings compute the same stores / effects / results when temporaries are
+    propagated freely - NOT a proof (order of heap reads against heap changes is ignored), so it never licenses replacing
+    the function; it only tells a re-spelled function from a changed one."""
+    LOOSE[0] = True
+    try:
+        return functions_equivalent(fa, fb)
+    finally:
+        LOOSE[0] = False
 
 
 def functions_equivalent(fa, fb):
